@@ -23,7 +23,7 @@ Print Assumptions C07_receive_only_adds.
 
 (** a second delivery of the same slate to that account is refused without effect *)
 Theorem C07_second_delivery_refused : forall w slate amount ttl dest crypto_ok t,
-  In t (w_log w) -> t_slate t = Some slate -> t_type t = TReceived ->
+  In t (w_log w) -> t_slate t = Some slate -> (t_type t = TReceived \/ t_type t = TReverted) ->
   t_parent t = (match dest with Some d => d | None => w_active w end) ->
   fst (receive w slate amount ttl dest crypto_ok) = w
   /\ is_ok (snd (receive w slate amount ttl dest crypto_ok)) = false.
